@@ -13,6 +13,8 @@ text) and the list holding one empty string differ.
   tests <intro>|<ser>|<target ids>      intro = name;cmd;k:v&k:v;workdir;timeout;suite;par;prio;proto;depends;extra
                                         ser   = name;fname;args;m:name:vals:sep&…;workdir;timeout;suite;par;prio;proto;depends;extra
         -> OK|<agree>|<n intro>,<n ser>|<bit per position>|<depends-known>
+  testdeps <uses>|<targets>|<prereq>    use = depends;paths   target = id;files
+        -> OK|<agree>|<prereq-agrees>|<bit per test: built command words covered by depends>
   install <dirs>|<prefix>|<plan>|<installed>|<plan recs>|<installed recs>
                                         dirs = k:v&…   plan = sect;path;dest;tag;sub   installed = key;value
                                         rec = kind;datatype;path;installpath;tag;sub   kind = t|d|h|m|s|l
@@ -82,6 +84,16 @@ def decSerTest (r : String) : Option SerTest :=
         protocol := decodeStr po, depends := decodeStrList d, extraPaths := decodeStrList x })
   | _ => none
 
+def decUse (r : String) : Option TestUse :=
+  match comps r with
+  | [d, p] => some { depends := decodeStrList d, paths := decodeStrList p }
+  | _ => none
+
+def decTF (r : String) : Option TargetFiles :=
+  match comps r with
+  | [i, f] => some { id := decodeStr i, files := decodeStrList f }
+  | _ => none
+
 def decIKind : String → Option IKind
   | "t" => some .targets | "d" => some .data | "h" => some .headers | "m" => some .man | "s" => some .subdirs
   | "l" => some .symlinks | _ => none
@@ -133,6 +145,12 @@ def handle (cmd : String) (fs : List String) : String :=
       let tids := decodeStrList ids
       let depsOk := is.all (fun i => i.depends.all (fun d => decide (d ∈ tids)))
       s!"OK|{boolStr (checkTests is ss tids)}|{is.length},{ss.length}|{bits (zipBits is ss)}|{boolStr depsOk}"
+    | _, _ => "bad-op"
+  | "testdeps", [u, t, p] =>
+    match (recs u).mapM decUse, (recs t).mapM decTF with
+    | some us, some ts =>
+      let pre := decodeStrList p
+      s!"OK|{boolStr (checkTestDeps us ts pre)}|{boolStr (checkPrereq us ts pre)}|{bits (us.map (fun x => checkCmdCovered [x] ts))}"
     | _, _ => "bad-op"
   | "install", [d, pfx, pl, ins, pr, ir] =>
     match (subs d).mapM decPair, (recs pl).mapM decPlan, (recs ins).mapM decKV, (recs pr).mapM decRec, (recs ir).mapM decRec with
